@@ -180,7 +180,9 @@ func Containers() map[string]interface{} {
 		"mnil": map[string]int(nil),
 		"many": map[string]interface{}{"n": nil, "i": 1, "s": "x", "l": []interface{}{1}, "m": map[string]interface{}{"z": 0}},
 		"mim":  map[int]string{5: "five", -1: "neg"},
-		"mi8":  map[int8]string{5: "five"},
+		"mi8":  map[int8]string{5: "five", 44: "wrapped"},
+		"mu8":  map[uint8]string{44: "wrapped", 255: "max"},
+		"mi16": map[int16]int{-32768: 1},
 		"mu":   map[uint16]bool{9: true},
 		"mb":   map[bool]string{true: "yes"},
 		"mf":   map[float64]string{0.5: "half"},
